@@ -422,7 +422,12 @@ fn gen_family(rng: &mut Rng, c: &mut Case, fam: &str, be: bool) {
             if rng.chance(1, 150) {
                 let depth = 1usize << if rng.chance(1, 6) { rng.range(13, 15) } else { rng.range(6, 12) };
                 let depth = depth + rng.usize(depth);
-                let (ab, info) = asm::deep_chain(rng, be, asz, depth);
+                let (ab, info) = if rng.chance(1, 3) {
+                    note.push_str("+deepexpr");
+                    asm::deep_expr(rng, be, asz, depth.min(6000))
+                } else {
+                    asm::deep_chain(rng, be, asz, depth)
+                };
                 secs.insert("debug_abbrev".into(), ab);
                 secs.insert("debug_info".into(), info);
                 secs.insert("debug_types".into(), Vec::new());
